@@ -1,11 +1,99 @@
 //! Projections of a compilation used by property C16 (engine `compile`, projection names `c16:<name>`).
-#![allow(unused_imports, dead_code)]
+//!
+//! `c16:docs` — per file (joined by `|`), every commentable element in source order as `<path>=<comment>`
+//! (joined by `;`), where `<path>` is the Lean printer's element path (`d0`, `d0.f1`, `d1.o0`, `d2.e0`, `d2.e0.f1`)
+//! and `<comment>` is `none` or `doc(ov=…;p=[…];r=[…];s=[…])` with adjacent texts merged, empty texts dropped,
+//! message components `t:<hex>` / `resolved:<kind>:<hex parser-scoped id>` / `unresolved:<hex id>`;
+//! then ` diags=` the *sorted* list `code/level` of all diagnostics (after `into_updated`), then ` oracle=ok`
+//! or ` oracle=<what failed>`: the property evaluated on the implementation alone (every diagnostic about a doc
+//! comment is a lint and never Error-level).
 use crate::compile::*;
 use slicec::compilation_state::CompilationState;
+use slicec::diagnostics::DiagnosticLevel;
 use slicec::grammar::*;
 use slicec::slice_options::SliceOptions;
 
+fn kind_s(e: &dyn Entity) -> &'static str {
+    match e.concrete_entity() {
+        Entities::Struct(_) => "struct",
+        Entities::Field(_) => "field",
+        Entities::Interface(_) => "interface",
+        Entities::Operation(_) => "operation",
+        Entities::Parameter(_) => "parameter",
+        Entities::Enum(_) => "enum",
+        Entities::Enumerator(_) => "enumerator",
+        Entities::CustomType(_) => "custom",
+        Entities::TypeAlias(_) => "alias",
+    }
+}
+
+fn link_s(l: &TypeRefDefinition<dyn Entity>) -> String {
+    match l {
+        TypeRefDefinition::Patched(p) => { let e = p.borrow(); format!("resolved:{}:{}", kind_s(e), hs(&e.parser_scoped_identifier())) }
+        TypeRefDefinition::Unpatched(id) => format!("unresolved:{}", hs(&id.value)),
+    }
+}
+
+fn msg_s(m: &Message) -> String {
+    let mut out: Vec<String> = vec![];
+    let mut pending = String::new();
+    for c in &m.value {
+        match c {
+            MessageComponent::Text(t) => pending.push_str(t),
+            MessageComponent::Link(l) => {
+                if !pending.is_empty() { out.push(format!("t:{}", hs(&pending))); pending.clear(); }
+                out.push(link_s(&l.link));
+            }
+        }
+    }
+    if !pending.is_empty() { out.push(format!("t:{}", hs(&pending))); }
+    format!("[{}]", out.join(","))
+}
+
+fn doc_s(c: Option<&DocComment>) -> String {
+    let Some(c) = c else { return "none".to_string() };
+    let ov = c.overview.as_ref().map_or("none".to_string(), msg_s);
+    let p: Vec<String> = c.params.iter().map(|t| format!("{}={}", hs(&t.identifier.value), msg_s(&t.message))).collect();
+    let r: Vec<String> = c.returns.iter().map(|t| format!("{}={}", t.identifier.as_ref().map_or("none".to_string(), |i| hs(&i.value)), msg_s(&t.message))).collect();
+    let s: Vec<String> = c.see.iter().map(|t| link_s(&t.link)).collect();
+    format!("doc(ov={};p=[{}];r=[{}];s=[{}])", ov, p.join(","), r.join(","), s.join(","))
+}
+
+fn file_docs(f: &slicec::slice_file::SliceFile) -> String {
+    let mut out: Vec<String> = vec![];
+    for (j, d) in f.contents.iter().enumerate() {
+        let p = format!("d{}", j);
+        match d {
+            Definition::Struct(x) => { let s = x.borrow(); out.push(format!("{}={}", p, doc_s(s.comment())));
+                for (k, fl) in s.fields().iter().enumerate() { out.push(format!("{}.f{}={}", p, k, doc_s(fl.comment()))); } }
+            Definition::Interface(x) => { let s = x.borrow(); out.push(format!("{}={}", p, doc_s(s.comment())));
+                for (k, o) in s.operations().iter().enumerate() { out.push(format!("{}.o{}={}", p, k, doc_s(o.comment()))); } }
+            Definition::Enum(x) => { let s = x.borrow(); out.push(format!("{}={}", p, doc_s(s.comment())));
+                for (k, e) in s.enumerators().iter().enumerate() {
+                    out.push(format!("{}.e{}={}", p, k, doc_s(e.comment())));
+                    if e.fields.is_some() { for (m, fl) in e.fields().iter().enumerate() { out.push(format!("{}.e{}.f{}={}", p, k, m, doc_s(fl.comment()))); } }
+                } }
+            Definition::CustomType(x) => { let s = x.borrow(); out.push(format!("{}={}", p, doc_s(s.comment()))); }
+            Definition::TypeAlias(x) => { let s = x.borrow(); out.push(format!("{}={}", p, doc_s(s.comment()))); }
+        }
+    }
+    out.join(";")
+}
+
+const DOC_LINTS: [&str; 3] = ["MalformedDocComment", "BrokenDocLink", "IncorrectDocComment"];
+
 pub fn project(state: CompilationState, options: SliceOptions, name: &str) -> String {
-    let _ = (&state, &options);
-    format!("unknown-projection:c16:{}", name)
+    match name {
+        "docs" => {
+            let files: Vec<String> = state.files.iter().map(file_docs).collect();
+            let diags = state.diagnostics.into_updated(&state.ast, &state.files, &options);
+            let mut v: Vec<String> = diags.iter().map(|d| format!("{}/{}", d.code(), match d.level() { DiagnosticLevel::Error => "E", DiagnosticLevel::Warning => "W", DiagnosticLevel::Allowed => "A" })).collect();
+            v.sort();
+            // implementation-side predicate: nothing is Error-level, and whatever is reported is one of the three doc lints
+            let bad: Vec<String> = diags.iter().filter(|d| d.level() == DiagnosticLevel::Error || !DOC_LINTS.contains(&d.code())).map(|d| d.code().to_string()).collect();
+            let oracle = if bad.is_empty() { "ok".to_string() } else { format!("not-a-doc-lint-or-error-level:{}", bad.join(",")) };
+            format!("{} diags={} oracle={}", files.join("|"), if v.is_empty() { "-".to_string() } else { v.join(",") }, oracle)
+        }
+        _ => format!("unknown-projection:c16:{}", name),
+    }
 }
